@@ -74,6 +74,8 @@ struct C06 : public Driver {
             SSCfg sc; sc.on = pickFeatures(g, allowed, 3, 9);
             if (g.chance(1, 2)) { sc.on.insert("key"); sc.on.insert("num-any"); } if (g.chance(1, 2)) sc.on.insert("paramuse"); if (g.chance(1, 2)) sc.on.insert("extfn");
             if (g.chance(1, 2)) sc.on.insert("gate"); if (g.chance(1, 3)) sc.on.insert("num-gate"); if (g.chance(1, 2)) sc.on.insert("sortlang"); if (g.chance(1, 3)) sc.on.insert("lazyvar");
+            sc.keyVariant = (int)g.below(3); if (g.chance(1, 2)) sc.on.insert("key-prefixed"); if (g.chance(1, 2)) sc.on.insert("key-variant"); if (g.chance(1, 4)) sc.on.insert("rtf-key"); if (g.chance(1, 4)) sc.on.insert("ext-evaluate");
+            { unsigned m = (unsigned)g.below(12); if (m == 0) { sc.method = ""; sc.rootName = "html"; } else if (m == 1) sc.method = "html"; else if (m == 2) sc.method = "text"; else if (m == 3) { sc.method = ""; } }   // output method: xml mostly; html, text, and the switch to html after the first element
             sc.dfVariant = (int)g.below(3); if (g.chance(1, 2)) sc.on.insert("fmtnum-df"); if (g.chance(1, 2)) sc.on.insert("sort-gate"); if (g.chance(1, 4)) sc.on.insert("bignum-alpha");
             { static const std::vector<std::string> langs = { "de", "de", "fr", "en" }; static const std::vector<std::string> cases = { "", "upper-first", "lower-first" }; sc.sortLang = g.pick(langs); sc.sortCase = g.pick(cases); }
             sc.useImport = g.chance(1, 3); sc.useInclude = g.chance(1, 4); sc.docFn = g.chance(1, 3); sc.stripSpace = g.chance(1, 4);
@@ -94,7 +96,7 @@ struct C06 : public Driver {
             else if (r < 26) {
                 Json& o = op("transform"); o["doc"] = (int)gh.below(3); o["sheet"] = (int)(gh.chance(1, 2) ? 0 : gh.below(3));
                 static const std::vector<std::string> sf = { "stream", "stream", "parsed", "parsed", "inputsource", "builder" }; static const std::vector<std::string> ssf = { "stream", "compiled", "compiled", "inputsource" };
-                static const std::vector<std::string> tf = { "callback", "callback", "ostream", "writer", "cfile" };
+                static const std::vector<std::string> tf = { "callback", "callback", "ostream", "writer", "cfile", "xercesdom", "sourcetree" };   // the last two hand the processor a caller-owned FormatterListener
                 o["src"] = gh.pick(sf); o["ss"] = gh.pick(ssf); o["target"] = gh.pick(tf); o["psi"] = (int)gh.below(5); o["csi"] = (int)gh.below(5);
                 unsigned f = (unsigned)gh.below(12);
                 const std::string& db = gd[o.num("doc")].xml;
